@@ -12,7 +12,7 @@ CONDS = [
          'pseudo-classes, namespaced types, custom aliases, :dir/:defined) -> ~17000 pairs, 60 (quick) / 4000 (thorough) '
          'pairs per part (x 14/16 parts) chosen by a VERIF_SEED-scrambled symbolic index; 3 namespace maps (none, prefixes, default); '
          '10 documents (HTML by html.parser / html5lib, XHTML, XML, several top-level nodes, iframe, inline SVG via '
-         'lxml-xml and html5lib)', timeout={'quick': 110, 'thorough': 1800}, parts={'quick': 14, 'thorough': 16}),
+         'lxml-xml and html5lib)', timeout={'quick': 110, 'thorough': 900}, parts={'quick': 14, 'thorough': 16}),
 ]
 
 
